@@ -419,12 +419,75 @@ def translate(repo):
     return rows, texts
 
 
-def emit(rows):
+PROBE_CONSTS = [0, 1, -1, 127, -128, 2147483647, -2147483648, 2147483648, 4294967295, 9223372036854775807, -9223372036854775808,
+                12345678901234567, -98765432109876543]
+PROBE_UCONSTS = [0, 1, 4294967296, 9223372036854775807, 9223372036854775808, 18446744073709551615, 10000000000000000000]
+
+
+def const_formats(src):
+    """how out_op prints MIR_OP_INT / MIR_OP_UINT operands -> ('FmtD64' | 'FmtU64' | 'FmtOther') x 2.
+    Read from the code (`case MIR_OP_INT: fprintf (f, "%" PRId64, op.u.i)`, PRId64 = "ld" here); when the printing code is
+    not in that form, from what the checked tree's mir2c prints for boundary constants (harness emitc): the text must be
+    exactly the %ld resp. %lu text of each probe constant (then the format is accepted with a note)"""
+    out = []
+    body = ''
+    r = find_function(src, 'out_op')
+    if r is not None:
+        body = re.sub(r'"\s+"', '', r[1])          # adjacent string literals ("%" PRId64 after the preprocessor)
+    for mode, fmt, arg, name in (('MIR_OP_INT', '%ld', 'op.u.i', 'FmtD64'), ('MIR_OP_UINT', '%lu', 'op.u.u', 'FmtU64')):
+        m = re.search(r'case\s+%s\s*:\s*fprintf\s*\(\s*f\s*,\s*"([^"]*)"\s*,\s*([\w.]+)\s*\)\s*;\s*break\s*;' % mode, body)
+        if m and m.group(1) == fmt and m.group(2) == arg:
+            out.append(name)
+        else:
+            out.append(None)
+    if None in out:
+        probed = probe_consts()
+        for k, (name, vals, tag) in enumerate((('FmtD64', PROBE_CONSTS, 'i'), ('FmtU64', PROBE_UCONSTS, 'u'))):
+            if out[k] is None:
+                ok = probed is not None and all(probed.get((tag, v)) == str(v) for v in vals)
+                out[k] = name if ok else 'FmtOther'
+                if ok:
+                    NOTES.append('%s operands: format read from the printed text of %d boundary constants' % ('MIR_OP_INT' if tag == 'i' else 'MIR_OP_UINT', len(vals)))
+    return out
+
+
+def probe_consts():
+    """{(kind, value): text printed by the checked tree's mir2c for `mov r, <constant>`}"""
+    try:
+        exe = vlib.build_harness('c20_insn', ['c02_insn.c'], units=('mir', 'mir-gen', 'mir2c'), defs=['-DC02_WITH_MIR2C'])
+        lines, keys = [], []
+        for tag, vals in (('i', PROBE_CONSTS), ('u', PROBE_UCONSTS)):
+            for v in vals:
+                keys.append((tag, v))
+                lines.append('k%d MOV ii- r %s:%x -' % (len(keys), tag, v & ((1 << 64) - 1)))
+        cfile = os.path.join(vlib.BUILD, 'c20-constprobe-%d.c' % os.getpid())
+        rc, out, err = vlib.sh([exe, 'emitc', cfile], input=('\n'.join(lines) + '\n').encode(), timeout=120)
+        text = open(cfile).read()
+        os.remove(cfile)
+    except Exception:
+        return None
+    if rc != 0:
+        return None
+    res = {}
+    for i, key in enumerate(keys):
+        m = re.search(r'\bc20_k%d \(int64_t p\) \{\n(.*?)\n\}' % (i + 1), text, re.S)
+        if not m:
+            return None
+        mm = re.search(r'^\s*r\d+ = (\S+);$', m.group(1), re.M)
+        if not mm:
+            return None
+        res[key] = mm.group(1)
+    return res
+
+
+def emit(rows, fmts=('FmtOther', 'FmtOther')):
     s = '(* GENERATED on every run by tools/tr_c20_mir2c.py from mir2c/mir2c.c of the checked tree. *)\n'
-    s += 'From Coq Require Import ZArith List String.\nFrom MirV Require Import Mir.Opcode Mir.CExpr.\n'
+    s += 'From Coq Require Import ZArith List String.\nFrom MirV Require Import Mir.Opcode Mir.CExpr C20.ConstPrint.\n'
     s += 'Import ListNotations.\nLocal Open Scope Z_scope.\nLocal Open Scope string_scope.\n\n'
     s += 'Definition mir2c_table : list (opcode * list cstmt) :=\n  [ '
-    s += '\n  ; '.join('(%s, [%s])' % (o, '; '.join(coq_stmt2(x) for x in st)) for o, st in rows) + ' ].\n'
+    s += '\n  ; '.join('(%s, [%s])' % (o, '; '.join(coq_stmt2(x) for x in st)) for o, st in rows) + ' ].\n\n'
+    s += '(* the conversion specifications out_op uses for MIR_OP_INT / MIR_OP_UINT operands *)\n'
+    s += 'Definition mir2c_int_fmt : cfmt := %s.\nDefinition mir2c_uint_fmt : cfmt := %s.\n' % tuple(fmts)
     return s
 
 
@@ -432,7 +495,8 @@ def main():
     rows, texts = translate(vlib.REPO)
     out = os.path.join(vlib.COQDIR, 'gen', 'Mir2cTable.v')
     os.makedirs(os.path.dirname(out), exist_ok=True)
-    txt = emit(rows)
+    fmts = const_formats(preprocess(vlib.REPO))
+    txt = emit(rows, fmts)
     old = open(out).read() if os.path.exists(out) else None
     if old != txt:
         open(out + '.tmp%d' % os.getpid(), 'w').write(txt)
